@@ -10,88 +10,6 @@ Proof.
   induction l as [|y l IH]; simpl; [tauto|]. intros [->|H]; [lia|]. specialize (IH H). lia.
 Qed.
 
-(* [m]: which fresh name each blank-node-named, non-empty graph received *)
-Definition TI (base : N) (D : dset) (done : list cid) (st : pst) (m : list (N * N)) : Prop :=
-  (forall c y, In (c, y) m ->
-     isb c = true /\ In c done /\ (exists t, In t (g_triples D c))
-     /\ exists k, (k < snd (p_env st))%N /\ y = fresh_id base k) /\
-  NoDup (map snd m) /\
-  (forall c, In c done -> isb c = true -> (exists t, In t (g_triples D c)) -> afind m c <> None) /\
-  (forall q, In q (p_out st) <->
-             exists c, In c done /\ In (fst q) (g_triples D c) /\ snd q = alookup m c).
-
-Lemma TI_even_lookup base D done st m c : TI base D done st m -> isb c = false -> alookup m c = c.
-Proof.
-  intros [H2 _] Hb. unfold alookup. destruct (afind m c) eqn:E; [|reflexivity].
-  apply afind_Some_In in E. destruct (H2 _ _ E) as [Hb' _]. congruence.
-Qed.
-
-Lemma trix_step base D done st m c :
-  TI base D done st m -> ~ In c done ->
-  exists m', TI base D (c :: done) (step_block false base st (lab_trix c, g_triples D c)) m'.
-Proof.
-  intros HT Hc. pose proof (TI_even_lookup _ _ _ _ _ c HT) as Hev.
-  destruct HT as [H2 [H3 [H4 H5]]]. unfold step_block, lab_trix. simpl. destruct (isb c) eqn:Hb.
-  - simpl. destruct (isnil (g_triples D c)) eqn:En.
-    + (* an empty anonymous graph leaves no trace *)
-      apply isnil_true in En. exists m. split; [|split; [|split]].
-      * intros c0 y Hin. destruct (H2 _ _ Hin) as (A & B & C & Dk). repeat split; auto. now right.
-      * exact H3.
-      * intros c0 [<-|Hd] Hb0 [t Ht]; [rewrite En in Ht; destruct Ht|apply H4; eauto].
-      * intros q. rewrite H5. split; intros [c0 [Hd [Ht Hs]]]; exists c0.
-        -- split; [now right|auto].
-        -- destruct Hd as [<-|Hd]; [rewrite En in Ht; destruct Ht|auto].
-    + set (n := snd (p_env st)). set (g := fresh_id base n).
-      destruct (fold_plain base g (g_triples D c)
-                  {| p_env := (fst (p_env st), N.succ n); p_out := p_out st |}) as [Ee Ho].
-      exists ((c, g) :: m). split; [|split; [|split]].
-      * intros c0 y [E|Hin].
-        -- inversion E; subst c0 y. split; [auto|]. split; [now left|]. split; [now apply isnil_false|].
-           exists n. rewrite Ee. simpl. split; [lia|reflexivity].
-        -- destruct (H2 _ _ Hin) as (A & B & C & k & Hk & Hy). split; [auto|]. split; [now right|].
-           split; [auto|]. exists k. rewrite Ee. simpl. split; [unfold n; lia|auto].
-      * simpl. constructor; [|auto]. rewrite in_map_iff. intros [[c0 y0] [Ey Hin]]. simpl in Ey. subst y0.
-        destruct (H2 _ _ Hin) as (_ & _ & _ & k & Hk & Hy). apply fresh_id_inj in Hy. unfold n in Hy. lia.
-      * intros c0 Hd Hb0 Hex. simpl. destruct (N.eqb_spec c0 c) as [->|Hn]; [discriminate|].
-        destruct Hd as [E|Hd]; [congruence|]. apply H4; auto.
-      * intros q. rewrite Ho. simpl. rewrite H5. split.
-        -- intros [[c0 [Hd [Ht Hs]]]|[Hs Ht]].
-           ++ exists c0. split; [now right|]. split; [auto|]. rewrite Hs. unfold alookup. simpl.
-              destruct (N.eqb_spec c0 c) as [->|Hn]; [contradiction|reflexivity].
-           ++ exists c. split; [now left|]. split; [auto|]. unfold alookup. simpl. now rewrite N.eqb_refl.
-        -- intros [c0 [[<-|Hd] [Ht Hs]]].
-           ++ right. split; [|auto]. rewrite Hs. unfold alookup. simpl. now rewrite N.eqb_refl.
-           ++ left. exists c0. split; [auto|]. split; [auto|]. rewrite Hs. unfold alookup. simpl.
-              destruct (N.eqb_spec c0 c) as [->|Hn]; [contradiction|reflexivity].
-  - simpl. destruct (fold_plain base c (g_triples D c) {| p_env := p_env st; p_out := p_out st |}) as [Ee Ho].
-    exists m. split; [|split; [|split]].
-    + intros c0 y Hin. destruct (H2 _ _ Hin) as (A & B & C & k & Hk & Hy). split; [auto|]. split; [now right|].
-      split; [auto|]. exists k. rewrite Ee. simpl. auto.
-    + exact H3.
-    + intros c0 [<-|Hd] Hb0; [congruence|apply H4; auto].
-    + intros q. rewrite Ho. simpl. rewrite H5. split.
-      * intros [[c0 [Hd [Ht Hs]]]|[Hs Ht]].
-        -- exists c0. split; [now right|auto].
-        -- exists c. split; [now left|]. split; [auto|]. rewrite Hs. symmetry. now apply Hev.
-      * intros [c0 [[<-|Hd] [Ht Hs]]].
-        -- right. split; [|auto]. rewrite Hs. now apply Hev.
-        -- left. exists c0. auto.
-Qed.
-
-Lemma trix_fold base D cs : forall done st m,
-  TI base D done st m -> NoDup cs -> (forall c, In c cs -> ~ In c done) ->
-  exists done' m', (forall c, In c done' <-> In c done \/ In c cs)
-                   /\ TI base D done' (fold_left (step_block false base) (blocks_of lab_trix D cs) st) m'.
-Proof.
-  induction cs as [|c cs IH]; intros done st m HT Hn Hd; simpl.
-  - exists done, m. split; [intros c; tauto|exact HT].
-  - inversion Hn as [|? ? Hni Hn']; subst.
-    destruct (trix_step base D done st m c HT) as [m1 HT1]; [apply Hd; now left|].
-    destruct (IH (c :: done) _ m1 HT1 Hn') as [done' [m' [Hd' HT']]].
-    + intros c' Hc' [E|Hin]; [congruence|]. apply (Hd c'); [now right|auto].
-    + exists done', m'. split; [|exact HT']. intros c'. rewrite Hd'. simpl. tauto.
-Qed.
-
 Lemma ds_contexts_NoDup D : NoDup (d_ctxs D) -> NoDup (ds_contexts D).
 Proof.
   intros H. unfold ds_contexts. destruct (memb N.eqb 0%N (d_ctxs D)) eqn:E; [auto|].
@@ -105,70 +23,164 @@ Definition names_apart (D : dset) : Prop :=
 Lemma term_ids_In x Q : In x (term_ids Q) <-> exists q, In q Q /\ In x [fst (fst (fst q)); snd (fst (fst q)); snd (fst q)].
 Proof. unfold term_ids. apply in_flat_map. Qed.
 
-Lemma doc_ids_terms lab D cs c t x :
-  In c cs -> In t (g_triples D c) -> In x [fst (fst t); snd (fst t); snd t] ->
-  In x (doc_ids (blocks_of lab D cs)).
+
+(* ------------------------------------------------------------------ *)
+(* Simulation: reading an anonymous non-empty <graph> behaves like reading a
+   graph whose label is a blank node never seen before and never seen again
+   (the dictionary entry it would create is never consulted). *)
+
+Definition keepc (D : dset) (c : cid) : bool := negb (isb c) || negb (isnil (g_triples D c)).
+Definition trix_named (D : dset) (cs : list cid) : doc := blocks_of GName D (filter (keepc D) cs).
+
+(* ghost keys: names of the anonymous graphs read so far *)
+Definition KI (D : dset) (K : list N) : Prop :=
+  forall k, In k K -> isb k = true /\ exists t, In (t, k) (d_quads D).
+
+Definition ER (D : dset) (K : list N) (eA eN : penv) : Prop :=
+  snd eA = snd eN /\
+  (forall z, ~ In z K -> afind (fst eN) z = afind (fst eA) z) /\
+  (forall z, In z (map fst (fst eN)) -> In z K \/ In z (term_ids (d_quads D))).
+
+Definition tok (D : dset) (K : list N) (x : N) : Prop :=
+  ~ In x K /\ (In x (term_ids (d_quads D)) \/ isb x = false).
+
+Lemma res_sim base D K eA eN x : ER D K eA eN -> tok D K x ->
+  ER D K (fst (res true base eA x)) (fst (res true base eN x))
+  /\ snd (res true base eA x) = snd (res true base eN x).
 Proof.
-  intros Hc Ht Hx. unfold doc_ids. apply in_flat_map. exists (lab c, g_triples D c). split.
-  - unfold blocks_of. apply in_map_iff. eauto.
-  - apply in_app_iff. right. simpl. apply in_flat_map. eauto.
+  intros [Hn [Hf Hk]] [HxK Hx]. unfold res. simpl. destruct (isb x) eqn:Hb; simpl; [|repeat split; auto].
+  rewrite (Hf x HxK). destruct (afind (fst eA) x) eqn:Ef; simpl; [repeat split; auto|].
+  rewrite Hn. split; [|reflexivity]. split; [reflexivity|]. split; simpl.
+  - intros z Hz. destruct (N.eqb z x); auto.
+  - intros z [<-|Hz]; [|auto]. right. destruct Hx as [Hx|Hx]; [auto|congruence].
 Qed.
 
-Lemma trix_roundtrip D : wfd D -> names_apart D -> iso (d_quads D) (parse_doc false (ser_trix D)).
+Lemma step_triple_sim base D K g stA stN (t : triple) :
+  ER D K (p_env stA) (p_env stN) -> p_out stA = p_out stN ->
+  (forall x, In x [fst (fst t); snd (fst t); snd t] -> tok D K x) ->
+  ER D K (p_env (step_triple true base g stA t)) (p_env (step_triple true base g stN t))
+  /\ p_out (step_triple true base g stA t) = p_out (step_triple true base g stN t).
 Proof.
-  intros [_ [Hnd Hcov]] Hap. unfold parse_doc, ser_trix.
-  set (cs := ds_contexts D). set (base := N.succ (list_max (doc_ids (blocks_of lab_trix D cs)))).
-  destruct (trix_fold base D cs [] {| p_env := ([], 0%N); p_out := [] |} []) as [done [m [Hdone HT]]].
-  { split; [intros c y []|]. split; [constructor|]. split; [intros c []|].
-    intros q. simpl. split; [tauto|]. intros [c [[] _]]. }
-  { now apply ds_contexts_NoDup. }
-  { intros c _ []. }
-  set (st := fold_left (step_block false base) (blocks_of lab_trix D cs) {| p_env := ([], 0%N); p_out := [] |}) in *.
-  assert (forall c, isb c = false -> alookup m c = c) as Hev by (intros c; apply (TI_even_lookup _ _ _ _ _ c HT)).
-  destruct HT as [H2 [H3 [H4 H5]]].
-  assert (forall c, In c done <-> In c cs) as Hd by (intros c; rewrite Hdone; simpl; tauto).
-  (* keys of m are not nodes of triples *)
-  assert (forall x, In x (term_ids (d_quads D)) -> afind m x = None) as Hterm.
-  { intros x Hx. destruct (afind m x) eqn:E; [|reflexivity]. apply afind_Some_In in E.
-    destruct (H2 _ _ E) as (Hb & _ & [t Ht] & _). apply g_triples_In in Ht.
-    exfalso. apply (Hap _ Ht); auto. }
-  assert (forall q, In q (d_quads D) -> rn_quad (alookup m) q = (fst q, alookup m (snd q))) as Hrq.
-  { intros q Hq. destruct q as [[[s p] o] c]. unfold rn_quad, rn_triple. simpl.
-    assert (forall x, In x [s; p; o] -> rn (alookup m) x = x) as Hx.
-    { intros x Hx. unfold rn. destruct (isb x); [|reflexivity]. unfold alookup. rewrite Hterm; [reflexivity|].
-      apply term_ids_In. exists (s, p, o, c). auto. }
-    rewrite (Hx s), (Hx p), (Hx o); simpl; auto. f_equal.
-    unfold rn. destruct (isb c) eqn:Hb; [reflexivity|]. symmetry. now apply Hev. }
-  exists (alookup m). split; [|split].
-  - intros x Hx. unfold alookup. destruct (afind m x) eqn:E; [|exact Hx].
-    apply afind_Some_In in E. destruct (H2 _ _ E) as (_ & _ & _ & k & _ & ->). apply fresh_id_odd.
-  - intros x y Hx Hy. unfold alookup.
-    assert (forall z v, In z (bnodes (d_quads D)) -> afind m z = None -> In (z, v) m -> False) as Hfresh.
-    { intros z v Hz Hnone Hin. destruct (H2 _ _ Hin) as (Hb & _ & _ & _).
-      apply afind_None_notin in Hnone. apply Hnone. apply in_map_iff. exists (z, v). auto. }
-    assert (forall z w v, In z (bnodes (d_quads D)) -> afind m z = None -> In (w, v) m -> v <> z) as Hne.
-    { intros z w v Hz Hnone Hin E. subst v.
-      destruct (H2 _ _ Hin) as (_ & _ & _ & k & _ & Hzk).
-      apply bnodes_In in Hz. destruct Hz as [Hb Hi]. apply ids_of_In in Hi. destruct Hi as [q [Hq Hzq]].
-      destruct q as [[[s p] o] c]. unfold ids_of_quad in Hzq. simpl in Hzq.
-      assert (z = c \/ In z [s; p; o]) as [->|Hzt] by (simpl; intuition).
-      - (* a graph name with a triple has an entry *)
-        apply (H4 c); auto.
-        + apply Hd. apply (Hcov _ Hq).
-        + exists (s, p, o). now apply g_triples_In.
-      - assert (In z (doc_ids (blocks_of lab_trix D cs))) as Hdoc.
-        { apply (doc_ids_terms lab_trix D cs c (s, p, o) z); auto.
-          - apply (Hcov _ Hq).
-          - now apply g_triples_In. }
-        apply list_max_ge in Hdoc. pose proof (fresh_id_gt base k). unfold base in *. lia. }
-    destruct (afind m x) eqn:Ex, (afind m y) eqn:Ey.
-    + intros ->. apply afind_Some_In in Ex. apply afind_Some_In in Ey. eapply snd_inj_of_NoDup; eauto.
-    + intros E. subst n. apply afind_Some_In in Ex. exfalso. exact (Hne y x y Hy Ey Ex eq_refl).
-    + intros E. subst n. apply afind_Some_In in Ey. exfalso. exact (Hne x y x Hx Ex Ey eq_refl).
-    + auto.
-  - intros q'. rewrite in_map_iff. rewrite H5. split.
-    + intros [q [<- Hq]]. rewrite (Hrq _ Hq). simpl. exists (snd q). split; [apply Hd; apply (Hcov _ Hq)|].
-      split; [|reflexivity]. apply g_triples_In. now destruct q.
-    + intros [c [Hc [Ht Hs]]]. apply g_triples_In in Ht. exists (fst q', c). split; [|exact Ht].
-      rewrite (Hrq _ Ht). simpl. destruct q'; simpl in *. now subst.
+  intros HE Ho Ht. unfold step_triple. cbn [p_env p_out].
+  destruct (res_sim base D K _ _ (fst (fst t)) HE) as [E1 V1]; [apply Ht; simpl; auto|].
+  destruct (res_sim base D K _ _ (snd (fst t)) E1) as [E2 V2]; [apply Ht; simpl; auto|].
+  destruct (res_sim base D K _ _ (snd t) E2) as [E3 V3]; [apply Ht; simpl; auto|].
+  split; [exact E3|]. now rewrite V1, V2, V3, Ho.
+Qed.
+
+Lemma fold_sim base D K g (ts : list triple) : forall stA stN,
+  (forall t, In t ts -> forall x, In x [fst (fst t); snd (fst t); snd t] -> tok D K x) ->
+  ER D K (p_env stA) (p_env stN) -> p_out stA = p_out stN ->
+  ER D K (p_env (fold_left (step_triple true base g) ts stA)) (p_env (fold_left (step_triple true base g) ts stN))
+  /\ p_out (fold_left (step_triple true base g) ts stA) = p_out (fold_left (step_triple true base g) ts stN).
+Proof.
+  induction ts as [|t ts IH]; intros stA stN Ht HE Ho; simpl; [auto|].
+  destruct (step_triple_sim base D K g stA stN t HE Ho) as [HE' Ho']; [apply Ht; now left|].
+  apply IH; auto. intros t' Ht'. apply Ht. now right.
+Qed.
+
+Lemma graph_terms_tok D K c : names_apart D -> KI D K ->
+  forall t : triple, In t (g_triples D c) -> forall x, In x [fst (fst t); snd (fst t); snd t] -> tok D K x.
+Proof.
+  intros Hap HK t Ht x Hx. apply g_triples_In in Ht.
+  assert (In x (term_ids (d_quads D))) as Hti by (apply term_ids_In; exists (t, c); auto).
+  split; [|now left]. intros HxK. destruct (HK _ HxK) as [Hb [t' Ht']].
+  apply (Hap _ Ht'); auto.
+Qed.
+
+Lemma step_block_anon_empty r base st ts : isnil ts = true -> step_block r base st (GAnon, ts) = st.
+Proof. intros H. unfold step_block. cbn [fst snd]. now rewrite H. Qed.
+
+Lemma step_block_anon r base st ts : isnil ts = false ->
+  step_block r base st (GAnon, ts)
+  = fold_left (step_triple r base (fresh_id base (snd (p_env st)))) ts
+      {| p_env := (fst (p_env st), N.succ (snd (p_env st))); p_out := p_out st |}.
+Proof. intros H. unfold step_block. cbn [fst snd]. now rewrite H. Qed.
+
+Lemma step_block_name r base st c ts :
+  step_block r base st (GName c, ts)
+  = fold_left (step_triple r base (snd (res r base (p_env st) c))) ts
+      {| p_env := fst (res r base (p_env st) c); p_out := p_out st |}.
+Proof. reflexivity. Qed.
+
+Lemma trix_sim base D : names_apart D -> forall cs K stA stN,
+  NoDup cs -> (forall c, In c cs -> ~ In c K) -> KI D K ->
+  ER D K (p_env stA) (p_env stN) -> p_out stA = p_out stN ->
+  p_out (fold_left (step_block true base) (blocks_of lab_trix D cs) stA)
+  = p_out (fold_left (step_block true base) (trix_named D cs) stN).
+Proof.
+  intros Hap. induction cs as [|c cs IH]; intros K stA stN Hnd HcK HK HE Ho; [exact Ho|].
+  inversion Hnd as [|? ? Hni Hnd']; subst. unfold trix_named, blocks_of. cbn [map filter fold_left].
+  fold (blocks_of lab_trix D cs).
+  destruct (isb c) eqn:Hb.
+  - assert (lab_trix c = GAnon) as -> by (unfold lab_trix; now rewrite Hb).
+    assert (keepc D c = negb (isnil (g_triples D c))) as -> by (unfold keepc; now rewrite Hb).
+    destruct (isnil (g_triples D c)) eqn:En; cbn [negb].
+    + (* empty anonymous graph: no trace on either side *)
+      rewrite (step_block_anon_empty _ _ _ _ En).
+      apply (IH K); auto. intros c' Hc'. apply HcK. now right.
+    + cbn [map fold_left]. rewrite (step_block_anon _ _ _ _ En), step_block_name.
+      assert (afind (fst (p_env stN)) c = None) as Hnone.
+      { apply afind_notin_keys. intros Hin. destruct HE as [_ [_ Hk]]. destruct (Hk _ Hin) as [H|H].
+        - apply (HcK c); [now left|auto].
+        - apply isnil_false in En. destruct En as [t Ht]. apply g_triples_In in Ht. apply (Hap _ Ht); auto. }
+      assert (res true base (p_env stN) c
+              = (((c, fresh_id base (snd (p_env stN))) :: fst (p_env stN), N.succ (snd (p_env stN))),
+                 fresh_id base (snd (p_env stN)))) as ->.
+      { unfold res. cbn [andb]. now rewrite Hb, Hnone. }
+      cbn [fst snd].
+      assert (KI D (c :: K)) as HK'.
+      { intros k [<-|Hk]; [|auto]. split; [auto|]. apply isnil_false in En. destruct En as [t Ht].
+        exists t. now apply g_triples_In. }
+      pose proof HE as [Hn [Hf Hk]]. rewrite Hn.
+      assert (ER D (c :: K) (fst (p_env stA), N.succ (snd (p_env stN)))
+                 ((c, fresh_id base (snd (p_env stN))) :: fst (p_env stN), N.succ (snd (p_env stN)))) as HE'.
+      { split; [reflexivity|]. split; simpl.
+        - intros z Hz. destruct (N.eqb_spec z c) as [->|Hne]; [exfalso; apply Hz; now left|].
+          apply Hf. intros Hin. apply Hz. now right.
+        - intros z [<-|Hz]; [left; now left|]. destruct (Hk _ Hz); [left; now right|now right]. }
+      destruct (fold_sim base D (c :: K) (fresh_id base (snd (p_env stN))) (g_triples D c)
+                  {| p_env := (fst (p_env stA), N.succ (snd (p_env stN))); p_out := p_out stA |}
+                  {| p_env := ((c, fresh_id base (snd (p_env stN))) :: fst (p_env stN), N.succ (snd (p_env stN)));
+                     p_out := p_out stN |}) as [HE2 Ho2].
+      * now apply graph_terms_tok.
+      * exact HE'.
+      * exact Ho.
+      * apply (IH (c :: K)); auto. intros c' Hc' [E|Hin]; [congruence|]. apply (HcK c'); [now right|auto].
+  - assert (lab_trix c = GName c) as -> by (unfold lab_trix; now rewrite Hb).
+    assert (keepc D c = true) as -> by (unfold keepc; now rewrite Hb).
+    cbn [map fold_left]. rewrite !step_block_name.
+    assert (tok D K c) as Htc.
+    { split; [|now right]. intros Hin. destruct (HK _ Hin). congruence. }
+    destruct (res_sim base D K _ _ c HE Htc) as [HE1 V1]. rewrite V1.
+    destruct (fold_sim base D K (snd (res true base (p_env stN) c)) (g_triples D c)
+                {| p_env := fst (res true base (p_env stA) c); p_out := p_out stA |}
+                {| p_env := fst (res true base (p_env stN) c); p_out := p_out stN |}) as [HE2 Ho2].
+    + now apply graph_terms_tok.
+    + exact HE1.
+    + exact Ho.
+    + apply (IH K); auto. intros c' Hc'. apply HcK. now right.
+Qed.
+
+Lemma trix_roundtrip D : wfd D -> names_apart D -> iso (d_quads D) (parse_doc true (ser_trix D)).
+Proof.
+  intros [_ [Hnd Hcov]] Hap. unfold parse_doc. set (base := N.succ (list_max (doc_ids (ser_trix D)))).
+  unfold parse_with, ser_trix.
+  rewrite (trix_sim base D Hap (ds_contexts D) [] _ {| p_env := ([], 0%N); p_out := [] |}).
+  - fold (parse_with true base (trix_named D (ds_contexts D))). apply parse_with_relabel_iso.
+    + unfold trix_named. apply blocks_of_named. discriminate.
+    + intros q. unfold trix_named, blocks_of. split.
+      * intros Hq. exists (GName (snd q), g_triples D (snd q)). split; [|split].
+        -- apply in_map_iff. exists (snd q). split; [reflexivity|]. apply filter_In. split; [auto|].
+           unfold keepc. apply orb_true_iff. right. apply negb_true_iff. apply isnil_false.
+           exists (fst q). apply g_triples_In. now destruct q.
+        -- reflexivity.
+        -- simpl. apply g_triples_In. now destruct q.
+      * intros [b [Hb [Hr Ht]]]. apply in_map_iff in Hb. destruct Hb as [c [<- _]]. simpl in *.
+        subst c. apply g_triples_In in Ht. now destruct q.
+  - now apply ds_contexts_NoDup.
+  - intros c _ [].
+  - intros k [].
+  - split; [reflexivity|]. split; [reflexivity|]. intros z [].
+  - reflexivity.
 Qed.
